@@ -52,6 +52,10 @@ def check_property(prop, tier, repo, record=False, verbose=False):
                        and ".raises[" not in n)
     # --- manifest of obligation names (vacuity guard) ---------------------------------
     man = json.load(open(MANIFEST_OBL)) if os.path.exists(MANIFEST_OBL) else {}
+    SHA_FILE = os.path.join(VERIF, "contracts", "function_sha.json")
+    cur_sha = {q: fi.sha for q, fi in rep["world"].repo.funcs.items() if not q.startswith(("iface", "spec/")) and "/tests/" not in q and not q.startswith("tests/")}
+    if record:
+        json.dump(cur_sha, open(SHA_FILE, "w"), indent=0, sort_keys=True)
     if record:
         man[prop] = names_top + ["ast:" + a["name"] for a in rep["ast"]]
         json.dump(man, open(MANIFEST_OBL, "w"), indent=1, sort_keys=True)
@@ -163,6 +167,34 @@ def check_property(prop, tier, repo, record=False, verbose=False):
         elif status == "harness-error":
             # an always-run scenario harness that crashes would otherwise pass for "nothing found"
             problems.append("the always-run stand-in of %s failed to run (see %s)" % (fn, os.path.relpath(path, VERIF)))
+    # functions whose source differs from the recorded tree (or that are new): their scenario harness runs as an extra
+    # net even when every contract still verifies - a changed function under an assumed contract, or under none, is
+    # where property-breaking changes were missed (DESIGN 0.8).  On the recorded tree this set is empty.
+    try:
+        old_sha = json.load(open(SHA_FILE)) if os.path.exists(SHA_FILE) else {}
+        changed = sorted(q for q, h in cur_sha.items() if old_sha and old_sha.get(q) != h)
+        if changed:
+            sys.path.insert(0, VERIF)
+            from replay import realisers as _R2
+            prop_files = {f["function"].split("::")[0] for f in rep["functions"]} | {u["function"].split("::")[0].lstrip("('") for u in rep["undecided"]}
+            keys2 = {}
+            for q in changed:
+                if q.split("::")[0] not in prop_files:
+                    continue  # a file none of this property's contracts is about
+                k_ = _R2.find_key(q)
+                if k_ is not None and k_ not in keys2:
+                    keys2[k_] = q
+            for k_, q in sorted(keys2.items()):
+                if q in seen_fn:
+                    continue
+                seen_fn.add(q)
+                path, status = RP.standin(prop, q, "source of this function differs from the recorded tree", repo, replay_dir)
+                standins.append({"function": q, "reason": "changed function: scenario harness run in addition to the contracts", "tool": "native scenario harness (replay/realisers.py)",
+                                 "result": status, "replay": os.path.relpath(path, VERIF) if path else None})
+                if status == "confirmed":
+                    vio_lines.append("VIOLATION property=%s replay=%s" % (prop, os.path.relpath(path, VERIF)))
+    except ImportError:
+        pass
     if tier == "thorough":
         # thorough tier: besides the larger solver budgets and the extra back ends, every scenario harness registered
         # for a function under contract of this property is run once on the real code (bounded evidence on top of the
